@@ -151,18 +151,26 @@ def run_structure(text):
     return res
 
 
-def concrete_check(text, indent):
+def concrete_check(text, indent, with_comments=False):
     from calmjs.parse.parsers.es5 import parse
     from calmjs.parse.unparsers.es5 import pretty_print
-    out = pretty_print(parse(text), indent_str=indent)
+    out = pretty_print(parse(text, with_comments=with_comments), indent_str=indent)
     lines = out.split('\n')
     skel = [re.sub(r'"(?:[^"\\]|\\.)*"|\'(?:[^\'\\]|\\.)*\'', "'s'", ln) for ln in lines]
+    if with_comments:
+        # comment text is blanked in the skeleton (a line inside a multi-line comment is exempt: no token starts it)
+        flat = '\n'.join(skel)
+        flat = re.sub(r'/\*.*?\*/', lambda m: re.sub(r'[^\n]', ' ', m.group()).replace(' ', 'C', 1) if '\n' not in m.group() else 'C' + re.sub(r'[^\n]', '', m.group()) + 'CONT', flat, flags=re.S)
+        flat = re.sub(r'//[^\n]*', 'C', flat)
+        skel = flat.split('\n')
     depths, final = expected_depths(skel)
     if final != 0:
         return 'nesting depth %d at the end' % final, out
     if out and (not out.endswith('\n') or out.endswith('\n\n') or out[-2:-1] in (' ', '\t')):
         return 'output does not end with exactly one newline', out
-    for ln, d in zip(lines, depths):
+    for ln, d, sk in zip(lines, depths, skel):
+        if sk.startswith('CONT'):
+            continue          # continuation line of a multi-line comment
         if d is None:
             if ln.strip(' \t') == '' and ln != '':
                 return 'line consisting only of white space', out
@@ -173,9 +181,33 @@ def concrete_check(text, indent):
     return None, out
 
 
+COMMENT_SPELLINGS = ['/*c*/', '//c\n', '// y \n', '/* x\t*/', '/*c\nd*/']
+
+
+def _comment_job(chunk):
+    bad = []
+    n = 0
+    for text in chunk:
+        toks = text.split(' ')
+        if len(toks) > 8:
+            continue
+        for gap in (0, len(toks) // 2, len(toks) - 1, len(toks)):
+            for c in COMMENT_SPELLINGS:
+                t2 = ' '.join(toks[:gap]) + ' ' + c + ' '.join(toks[gap:])
+                for ind in ('  ', '\t'):
+                    try:
+                        msg, out = concrete_check(t2, ind, True)
+                    except Exception:
+                        continue
+                    n += 1
+                    if msg:
+                        bad.append((t2, ind, msg))
+    return n, bad[:5]
+
+
 def replay(d):
     w = d['input']
-    msg, out = concrete_check(w['text'], w['indent'])
+    msg, out = concrete_check(w['text'], w['indent'], w.get('with_comments', False))
     return bool(msg), 'source %r, indent %r -> %r: %s' % (w['text'], w['indent'], out, msg or 'ok')
 
 
@@ -223,6 +255,23 @@ def main():
             run.violation(key + ' | ' + rpd['input']['structure'][:60], detail[:500], rpd)
         else:
             run.inconclusive_('solver witness did not reproduce: %s :: %s' % (k2, detail[:300]))
+    # ---- replay leg with comments (comment fragments end in / are followed by optional newlines)
+    cres = common.pmap(_comment_job, [texts[i::32] for i in range(32)])
+    ncom = sum(r[0] for r in cres)
+    seenk = set()
+    for n, bad in cres:
+        for text, ind, msg in bad:
+            key = 'C20 comments: %s' % re.sub(r"%r|'.*?'|\d+", '..', msg)[:80]
+            if key in seenk:
+                continue
+            seenk.add(key)
+            rpd = {'property': 'C20', 'input': {'text': text, 'indent': ind, 'with_comments': True}}
+            ok, detail = rp.run_in_subprocess(rpd)
+            if ok:
+                run.violation(key, detail[:500], rpd)
+            else:
+                run.inconclusive_('comment-leg failure did not reproduce: %r %s' % (text, msg))
+    run.leg('replay_with_comments', texts=ncom)
     run.coverage.update({
         'explanation': 'real pretty printer under SX with a symbolic indentation string (z3 string over space/tab, length <= 3, empty included) and symbolic '
                        'leaf spellings on every structure of the bounded space; per path z3 decides for every line that its leading text equals '
